@@ -5,10 +5,16 @@
    the root names; the frame property (adding or modifying one tree never changes any other tree, nor the header and
    UUID); a list / tuple of roots, unrooted nodes, arrays and dicts saved into a fresh file is stored as documented:
    the roots given whole, everything unrooted under one shared root; a list of rooted nodes (direct children of one root):
-   each stored alone -- without its children -- under a fresh copy of that root carrying the root's metadata.  PARTIAL:
-   lists mixing rooted nodes of several roots with other items are tied by correspondence + oracle. *)
+   each stored alone -- without its children -- under a fresh copy of that root carrying the root's metadata.  a list mixing
+   all of these (roots, unrooted nodes, arrays, dicts, rooted nodes of several roots): the trees above plus one fresh copy
+   per root with rooted items, each rooted item then added, alone, as the last child of the tree named like its root; the same list
+   appended to a file that already holds other trees leaves those first and unchanged;
+   an append / append-over into one tree of several replaces that tree, in place, by the union / union + replace;
+   any history of such saves (new trees, appends, append-overs in any order) by induction over the history;
+   locality: what a save does to the tree it is aimed at, and whether it succeeds, is a function of that tree alone --
+   the other trees of the file never influence it. *)
 From Coq Require Import Permutation.
-From Emd Require Import Base.Prelude Model.H5 Model.Emd Model.Reader Generated.Tables Proofs.PTree Proofs.PFrame Proofs.PRead Proofs.PMulti.
+From Emd Require Import Base.Prelude Model.H5 Model.Emd Model.Reader Generated.Tables Proofs.PTree Proofs.PFrame Proofs.PRead Proofs.PMulti Proofs.PLocal Proofs.PMixed Proofs.PUnion Proofs.PUnionAO.
 From Emd Require Import Model.EmdList.
 
 (* target_root: the tree a save is aimed at = the root's name, or the tree named by emdpath for a foreign root.
@@ -102,6 +108,128 @@ Theorem C10_rooted_list_items_are_stored_alone_under_a_copy_of_their_root :
                                    (map (fun x => match rwalk r [x] with Some d => with_kids d [] | None => dummy end) xs)])).
 Proof. exact list_of_rooted_items. Qed.
 Print Assumptions C10_rooted_list_items_are_stored_alone_under_a_copy_of_their_root.
+
+(* ---------- modifying one tree of a file of several (the other half of "adding or modifying one tree never changes any
+   other tree"): the targeted tree becomes the union (append) / union + replace (append-over) of its old content and the
+   runtime tree, in place; the trees before and after it, their order and the header are the same *)
+Theorem C10_an_append_into_one_tree_of_several_changes_that_tree_alone :
+  forall c c0 pre T post root md tr,
+    In md appendmode -> tr <> Some false ->
+    rname root = rname T -> ok_tree T -> compat T root ->
+    (rmds T <> [] \/ rmds root = []) -> NoDup (keys (rmds root)) ->
+    (forall k, In k (rkids T) -> rname k <> "metadatabundle") ->
+    ~ In (rname T) (map rname pre) -> Forall (fun t => rcls t = CRoot) (pre ++ T :: post) ->
+    write_node c (H5 (forest_file c0 (pre ++ T :: post))) root [] (WA md tr None)
+    = (Ok tt, H5 (forest_file c0 (pre ++ union_root T root :: post))).
+Proof. exact append_into_a_tree_of_a_forest. Qed.
+Print Assumptions C10_an_append_into_one_tree_of_several_changes_that_tree_alone.
+
+Theorem C10_an_appendover_into_one_tree_of_several_changes_that_tree_alone :
+  forall c c0 pre T post root md tr,
+    In md appendovermode -> tr <> Some false ->
+    rname root = rname T -> rmds root = [] -> compat_ao root (shallow_links T) (rkids T) ->
+    ~ In (rname T) (map rname pre) -> Forall (fun t => rcls t = CRoot) (pre ++ T :: post) ->
+    write_node c (H5 (forest_file c0 (pre ++ T :: post))) root [] (WA md tr None)
+    = (Ok tt, H5 (forest_file c0 (pre ++ with_kids T (aom root (rkids T)) :: post))).
+Proof. exact appendover_into_a_tree_of_a_forest. Qed.
+Print Assumptions C10_an_appendover_into_one_tree_of_several_changes_that_tree_alone.
+
+(* ---------- any history: new trees, appends and append-overs of whole trees in any order and interleaving.  happly = what
+   each step does to the list of trees (new: added last; append: the tree of that name becomes the union; append-over:
+   union + replace); hgood = each step meets, on the file as it is at that point, the hypotheses of its one-step theorem *)
+Theorem C10_any_history_of_whole_tree_saves :
+  forall c c0 steps ts,
+    ts <> [] -> Forall (fun t => rcls t = CRoot) ts -> NoDup (map rname ts) -> hgood ts steps ->
+    fold_left (fun s st => snd (write_node c s (hroot st) [] (WA (hmode st) (htree st) None))) steps (H5 (forest_file c0 ts))
+    = H5 (forest_file c0 (fold_left happly steps ts)).
+Proof. exact any_history_of_whole_tree_saves. Qed.
+Print Assumptions C10_any_history_of_whole_tree_saves.
+
+(* non-vacuity: file [r1/{a}]; then a new tree r2/{k}; then r1/{a/{y}, b} appended; then r2/{k'} appended over *)
+Example C10_history_example :
+  let r1 := RN CRoot "r1" 0%Z 0 [] [RN CNode "a" 0%Z 0 [] []] in
+  let r2 := RN CRoot "r2" 0%Z 0 [] [RN CArray "k" 5%Z 1 [] []] in
+  let r1b := RN CRoot "r1" 0%Z 0 [] [RN CNode "a" 0%Z 0 [] [RN CNode "y" 0%Z 0 [] []]; RN CNode "b" 0%Z 0 [] []] in
+  let r2b := RN CRoot "r2" 0%Z 0 [] [RN CArray "k" 6%Z 1 [] []] in
+  let steps := [HNew r2 "a" None; HApp r1b "append" (Some true); HAo r2b "ao" None] in
+  hgood [r1] steps /\
+  fold_left happly steps [r1] = [RN CRoot "r1" 0%Z 0 [] [RN CNode "a" 0%Z 0 [] [RN CNode "y" 0%Z 0 [] []]; RN CNode "b" 0%Z 0 [] []];
+                                 RN CRoot "r2" 0%Z 0 [] [RN CArray "k" 6%Z 1 [] []]].
+Proof.
+  cbv zeta. split; [|vm_compute; reflexivity].
+  cbn [hgood]. split; [|split; [|split; [|exact I]]].
+  - split; [discriminate|]. split; [vm_compute; tauto|]. split; [reflexivity|]. split; [apply ok_treeb_sound; reflexivity|]. cbn. intuition discriminate.
+  - split; [discriminate|]. split; [vm_compute; tauto|]. eexists. split; [left; reflexivity|]. split; [reflexivity|].
+    split; [apply ok_treeb_sound; reflexivity|]. split; [apply compatb_sound; reflexivity|]. split; [right; reflexivity|]. split; [constructor|].
+    intros k [<-|[]]. discriminate.
+  - split; [discriminate|]. split; [vm_compute; tauto|]. eexists. split; [right; left; reflexivity|]. split; [reflexivity|]. split; [reflexivity|].
+    apply compat_aob_sound. reflexivity.
+Qed.
+
+(* ---------- locality: for a root name k the file has, an append / append-over (any tree flag, with or without an emdpath)
+   into a file holding the tree t under k among any other links l succeeds exactly when the same save into the file holding
+   t alone does, and leaves there the same new tree t' -- the other trees are neither read nor written *)
+Theorem C10_a_save_into_one_tree_depends_on_that_tree_alone :
+  forall hdr l k t root tp a m,
+    rname root = k -> mem k (rootgroups (G hdr [(k, t)])) = true -> mem k (rootgroups (G hdr (set l k t))) = true ->
+    append_existing root tp a m (G hdr (set l k t))
+    = match append_existing root tp a m (G hdr [(k, t)]) with
+      | Ok s' => match get (olinks s') k with Some t' => Ok (G hdr (set l k t')) | None => Err EOther end
+      | Err e => Err e
+      end.
+Proof. exact append_depends_on_its_tree_alone. Qed.
+Print Assumptions C10_a_save_into_one_tree_depends_on_that_tree_alone.
+
+(* ---------- any mixed list into a fresh file.  list_rooted = the rooted items (index of their root, path below it);
+   list_copies = one childless copy, carrying the root's metadata, per root that has rooted items (order of first
+   appearance); add_item = the item's node, without its children, appended as the last child of the tree named like its
+   root.  list_conflict = two different roots of one name have rooted items (refused). *)
+Theorem C10_a_mixed_list_is_stored_as_documented :
+  forall c tops items md tr,
+    nodup_nat (list_unrooted_idx tops items) = true -> list_conflict tops items = false -> In md allmodes ->
+    let base := (list_saved tops items ++ list_given tops items) ++ list_copies tops items in
+    base <> [] -> Forall (fun t => rcls t = CRoot) base -> Forall ok_tree base -> NoDup (map rname base) ->
+    Forall (fun it => let r := nth (fst it) tops dummy in
+              rcls r = CRoot /\ rname r <> "" /\ no_slash (rname r) = true /\ NoDup (keys (rmds r)) /\
+              exists x data, snd it = [x] /\ rwalk r [x] = Some data /\ rname data = x /\ x <> "metadatabundle") (list_rooted items) ->
+    NoDup (map (fun it => (rname (nth (fst it) tops dummy), snd it)) (list_rooted items)) ->
+    write_list c Absent tops items (WA md tr None) = (Ok tt, H5 (forest_file c (fold_left (add_item tops) (list_rooted items) base))).
+Proof. exact mixed_list_into_a_fresh_file. Qed.
+Print Assumptions C10_a_mixed_list_is_stored_as_documented.
+
+(* ... and into a file that already holds other trees ts (append / append-over, any spelling): the trees already there stay
+   first and unchanged, the list's trees follow *)
+Theorem C10_a_mixed_list_appended_to_a_file_of_other_trees :
+  forall c tops items md tr ts,
+    In md (appendmode ++ appendovermode) -> ts <> [] -> Forall (fun t => rcls t = CRoot) ts ->
+    nodup_nat (list_unrooted_idx tops items) = true -> list_conflict tops items = false ->
+    let base := (list_saved tops items ++ list_given tops items) ++ list_copies tops items in
+    Forall (fun t => rcls t = CRoot) base -> Forall ok_tree base -> NoDup (map rname (ts ++ base)) ->
+    Forall (fun it => let r := nth (fst it) tops dummy in
+              rcls r = CRoot /\ rname r <> "" /\ no_slash (rname r) = true /\ NoDup (keys (rmds r)) /\
+              exists x data, snd it = [x] /\ rwalk r [x] = Some data /\ rname data = x /\ x <> "metadatabundle") (list_rooted items) ->
+    NoDup (map (fun it => (rname (nth (fst it) tops dummy), snd it)) (list_rooted items)) ->
+    write_list c (H5 (forest_file c ts)) tops items (WA md tr None)
+    = (Ok tt, H5 (forest_file c (fold_left (add_item tops) (list_rooted items) (ts ++ base)))).
+Proof. exact mixed_list_into_an_existing_file. Qed.
+Print Assumptions C10_a_mixed_list_appended_to_a_file_of_other_trees.
+
+(* non-vacuity: [r1.a, Root r2, r3.p, ndarray, r1.b, unrooted u] *)
+Example C10_mixed_list_example :
+  let tops := [RN CRoot "r1" 0%Z 0 [("m", 1%Z)] [RN CNode "a" 0%Z 0 [] [RN CNode "deep" 0%Z 0 [] []]; RN CArray "b" 7%Z 1 [] []];
+               RN CRoot "r2" 0%Z 0 [] [RN CNode "k" 0%Z 0 [] []];
+               RN CRoot "r3" 0%Z 0 [] [RN CPl "p" 3%Z 0 [] []];
+               RN CNode "u" 0%Z 0 [] []] in
+  let items := [LTop 0 ["a"]; LTop 1 []; LTop 2 ["p"]; LArr 9%Z 2; LTop 0 ["b"]; LTop 3 []] in
+  let c := CFG "emdfile" "" in
+  let want := [RN CRoot "root_savedlist" 0%Z 0 [] [RN CNode "u" 0%Z 0 [] []; RN CArray "array_0" 9%Z 2 [] []];
+               RN CRoot "r2" 0%Z 0 [] [RN CNode "k" 0%Z 0 [] []];
+               RN CRoot "r1" 0%Z 0 [("m", 1%Z)] [RN CNode "a" 0%Z 0 [] []; RN CArray "b" 7%Z 1 [] []];
+               RN CRoot "r3" 0%Z 0 [] [RN CPl "p" 3%Z 0 [] []]] in
+  nodup_nat (list_unrooted_idx tops items) = true /\ list_conflict tops items = false /\
+  fold_left (add_item tops) (list_rooted items) ((list_saved tops items ++ list_given tops items) ++ list_copies tops items) = want /\
+  write_list c Absent tops items (WA "w" None None) = (Ok tt, H5 (forest_file c want)).
+Proof. cbv zeta. repeat split; vm_compute; reflexivity. Qed.
 
 Example C10_list_example :
   let tops := [RN CRoot "r1" 0%Z 0 [] [RN CNode "a" 0%Z 0 [] []]; RN CArray "u" 7%Z 1 [] []; RN CRoot "r2" 0%Z 0 [("m", 1%Z)] []; RN CNode "u" 0%Z 0 [] []] in
